@@ -1064,6 +1064,31 @@ class _BaseHOFormulaBuilder(ABC, Generic[FormulaEngineT, QuantityT]):
         return result
 
 
+def _fetcher_name(engine: Any, names: dict[int, str]) -> str:
+    """Return the metric fetcher name for an operand engine of a composed formula.
+
+    Metric fetchers are keyed by name, so that an engine used several times in a
+    formula is fetched only once.  Different engines can have the same name though
+    (the same formula string for two metrics, two receivers given the same name);
+    they must not share a fetcher, so later ones get a distinguishing suffix.
+
+    Args:
+        engine: An operand engine.
+        names: The fetcher names given so far, by `id()` of the engine.
+
+    Returns:
+        The fetcher name for the engine.
+    """
+    if id(engine) not in names:
+        name = engine._name  # pylint: disable=protected-access
+        count = 1
+        while name in names.values():
+            count += 1
+            name = f"{engine._name} [{count}]"  # pylint: disable=protected-access
+        names[id(engine)] = name
+    return names[id(engine)]
+
+
 class HigherOrderFormulaBuilder(
     Generic[QuantityT], _BaseHOFormulaBuilder[FormulaEngine[QuantityT], QuantityT]
 ):
@@ -1083,11 +1108,12 @@ class HigherOrderFormulaBuilder(
             A `FormulaEngine` instance.
         """
         builder = FormulaBuilder(name, self._create_method)
+        names: dict[int, str] = {}
         for typ, value in self._steps:
             if typ == TokenType.COMPONENT_METRIC:
                 assert isinstance(value, FormulaEngine)
                 builder.push_metric(
-                    value._name,  # pylint: disable=protected-access
+                    _fetcher_name(value, names),
                     value.new_receiver(),
                     nones_are_zeros=nones_are_zeros,
                 )
@@ -1125,12 +1151,13 @@ class HigherOrderFormulaBuilder3Phase(
             FormulaBuilder(name, self._create_method),
             FormulaBuilder(name, self._create_method),
         ]
+        names: dict[int, str] = {}
         for typ, value in self._steps:
             if typ == TokenType.COMPONENT_METRIC:
                 assert isinstance(value, FormulaEngine3Phase)
                 for phase in range(3):
                     builders[phase].push_metric(
-                        f"{value._name}-{phase+1}",  # pylint: disable=protected-access
+                        f"{_fetcher_name(value, names)}-{phase+1}",
                         value._streams[  # pylint: disable=protected-access
                             phase
                         ].new_receiver(),
